@@ -465,6 +465,15 @@ def compare_sets(ctx, what, key_prefix, n, got, want_fn, detail):
 
 
 def search(ctx):
+    n_mis = len(ctx.mismatches)
+    search_body(ctx)
+    if len(ctx.mismatches) > n_mis:
+        # cross-checks of the Coq specification / certificate / rank construction against the oracles and the
+        # real program are part of the tie: a failure there must not pass silently
+        raise AssertionError("specification / certificate cross-checks failed: %r" % (ctx.mismatches[n_mis:n_mis + 3],))
+
+
+def search_body(ctx):
     m = None
     try:
         m = ctx.model("C08")
@@ -553,8 +562,7 @@ def search(ctx):
                     spec_reqs.append("SP %d %d B %s" % (h, w, " ".join(bits(pat))))
                     spec_meta.append(("grid", (h, w), es, pat))
             # z3's rank models against the Coq certificate checker; Coq's rank construction on the real program
-            if acc_grid is not None:
-                rank_vars = [v for v in s.variables if v.id >= len(av) and not hasattr(v, "_dummy")]
+            if acc_grid is not None and h >= 2 and w >= 2:
                 from cspuz.expr import IntVar
                 rank_vars = [v for v in s.variables if isinstance(v, IntVar)]
                 cd_reqs, rk_reqs, pats = [], [], []
@@ -581,7 +589,7 @@ def search(ctx):
                 ctx.corr("spec-vs-oracle:graph", (g, tuple(es), bits(pat)), (t[0] == "1", t[1] == "1"), (ind, con))
             else:
                 ctx.corr("spec-vs-oracle:grid", (g, bits(pat)), (t[0] == "1", t[1] == "1"), (ind, con))
-                if ind:
+                if ind and g[0] >= 2 and g[1] >= 2:
                     # diag_equiv beyond the kernel-checked bound: forest condition == complement connected
                     ctx.corr("diag-equiv", (g, bits(pat)), t[2] == "1", con)
 
